@@ -41,7 +41,7 @@ def leafAt (d : Dict) (k0 : String) (rest : List String) : Option Val :=
 /-- the version key of the path below a node whose own key is `p`: `p.k1.k2...` -/
 def keyOf (p : String) : List String → String
   | [] => p
-  | k :: rest => keyOf (p ++ "." ++ k) rest
+  | k :: rest => keyOf (p ++ "." ++ esc k) rest
 
 structure Task where
   parents : List Nat
@@ -67,5 +67,42 @@ def newRow (rows : List Row) (t : Task) : Row :=
 def stepRow (rows : List Row) (t : Task) : List Row := rows ++ [newRow rows t]
 
 def runRows (h : List Task) : List Row := h.foldl stepRow []
+
+/-! ### the workflow's FINAL context and output
+
+`DirectWorkflowController.evaluate_workflow_final_context`: the completed task executions without next
+tasks (the END tasks) are read from the database in BATCHES (`get_completed_task_executions_as_batches`:
+consecutive slices of `batch_size` rows, 20 in the code) and every batch is folded into the context
+accumulated so far: `ctx = evaluate_upstream_context(batch, additive_context=ctx)`.  An EMPTY accumulated
+context (`{}`: before the first batch) makes the last row of the batch the base of the fold; a non-empty
+one is the base itself and EVERY row of the batch is merged into it. -/
+
+/-- one `evaluate_upstream_context(batch, additive_context=acc)`; `none` = the empty dict `{}` -/
+def finalStep (acc : Option Ctx) (batch : List Ctx) : Option Ctx :=
+  if batch.isEmpty then none else
+  match acc with
+  | some c => some (batch.foldl mergeByVersion c)
+  | none => some (upstream batch)
+
+/-- the loop over the batches: `while idx < count: batch = rows[idx : idx + size]; idx += size`
+    (fuel = number of rows: with size >= 1 every round consumes a row) -/
+def foldBatches (size : Nat) : Nat → Option Ctx → List Ctx → Option Ctx
+  | 0, acc, _ => acc
+  | fuel + 1, acc, rows =>
+    if rows.isEmpty then acc else foldBatches size fuel (finalStep acc (rows.take size)) (rows.drop size)
+
+/-- `evaluate_workflow_final_context` over the outbound contexts of the end tasks in the order the
+    database lists them, for a batch size -/
+def finalContext (size : Nat) (ends : List Ctx) : Ctx :=
+  (foldBatches size ends.length none ends).getD { data := [], vers := [] }
+
+/-- `evaluate_workflow_output` for an `output:` clause that is a map from output names to VARIABLE
+    references (expressions are not modelled): every reference is looked up in the view (final context,
+    environment, workflow context, input); a missing variable is an error (`none`); an empty result
+    (no `output:` clause) yields the whole final context, without its versions. -/
+def workflowOutput (spec : List (String × String)) (final : Ctx) (layers : List Dict) : Option Dict :=
+  match spec.mapM (fun (p : String × String) => (viewLookup (final.data :: layers) p.2).map (fun v => (p.1, v))) with
+  | none => none
+  | some out => if out.isEmpty then some final.data else some out
 
 end Mistral.Hist
